@@ -114,7 +114,10 @@ PLANS = {
         extra_modules=['RucteProps.C11Total'],
         theorems=['Ructe.C11.template_no_panic', 'Ructe.C11.template_err_in_range', 'Ructe.C11.template_accepts_whole', 'Ructe.C11.diag_in_range', 'Ructe.C11.noneOf_panics_witness', 'Ructe.C11.showErrors_pinned_panics_witness', 'Ructe.C11.reject_has_diag', 'Ructe.C11.template_fuel_mono', 'Ructe.C11.template_no_oom', 'Ructe.C11.template_total'],
         runs=[dict(suite='parse', mix='examples,mutate,tokens,nesting,exhaustive,structured,badutf8',
-                   n=dict(quick=6000, thorough=120000), projection='accept', tags=['C11'])],
+                   n=dict(quick=6000, thorough=120000), projection='accept', tags=['C11']),
+              # the same through the build-script entry point: every template FILE of a tree (regular, symbolic link, not
+              # valid UTF-8) is accepted as a whole (its code is that of its whole content) or rejected with a diagnostic
+              dict(suite='script', mix='tree', n=dict(quick=80, thorough=800), projection='script+files+stdout', tags=['C11'])],
         correspondence='accept / reject / panic of template(), and for a rejection the line number, echoed line and caret column of every diagnostic, vs Ructe.template + Ructe.showErrors (message wording is not compared)',
         rule='token-alphabet strings (33 tokens) exhaustively to length 3 (quick) / 4 (thorough) behind a valid header, random token strings to length 9, mutations/splices of the example templates, structured templates, nesting 1..100 of every bracket / block kind closed and unclosed; non-trivial = distinct accepted syntax trees + rejected inputs with a diagnostic',
         assumptions=['stack exhaustion of the real recursion is runtime behaviour outside the model; nesting to 100 levels is exercised directly'],
@@ -208,16 +211,16 @@ PLANS = {
     ),
     'C10': dict(
         module='RucteProps.C10',
-        extra_modules=['RucteProps.C10Tree', 'RucteProps.C18Order'],
+        extra_modules=['RucteProps.C10Tree', 'RucteProps.C18Order', 'RucteProps.C10Failed'],
         needs_tables=['suffixes'],
-        theorems=['Ructe.C10.others_silent', 'Ructe.C10.valid_template_declared', 'Ructe.C10.broken_template_reported', 'Ructe.C10.subdir_declared', 'Ructe.C10.handleEntries_append', 'Ructe.C10.suffix_table', 'Ructe.C10.tree_mirror_file', 'Ructe.C10.subdir_mod_declared', 'Ructe.C10.template_fn_declared', 'Ructe.C10.decl_only_with_file', 'Ructe.C18.broken_isolated'],
+        theorems=['Ructe.C10Failed.failed_templates_call_disturbs_nothing', 'Ructe.C10Failed.failed_templates_call_same_outdir', 'Ructe.C10Failed.failed_static_call_disturbs_nothing', 'Ructe.C10Failed.failed_call_same_names', 'Ructe.C10Failed.step_frame', 'Ructe.C10.others_silent', 'Ructe.C10.valid_template_declared', 'Ructe.C10.broken_template_reported', 'Ructe.C10.subdir_declared', 'Ructe.C10.handleEntries_append', 'Ructe.C10.suffix_table', 'Ructe.C10.tree_mirror_file', 'Ructe.C10.subdir_mod_declared', 'Ructe.C10.template_fn_declared', 'Ructe.C10.decl_only_with_file', 'Ructe.C18.broken_isolated'],
         runs=[dict(suite='script', mix='tree', n=dict(quick=200, thorough=1500), projection='script+files+stdout', tags=['C10']),
               # the same promises when OUT_DIR is not empty: earlier builds, restored / renamed templates, residue
               dict(suite='script', mix='history', n=dict(quick=50, thorough=500), projection='script+files', tags=['C10'])],
         correspondence='the whole OUT_DIR (paths and bytes) and stdout of compile_templates on a directory tree vs Ructe.build given the observed read_dir order',
         rule='random trees to depth 4 with identifier stems / directory names, mixed suffixes, same stem under different suffixes, non-template files, empty directories, broken templates among valid ones; oracle: exactly the expected files, each the code generated for that template alone, declaration chains present, broken templates warned and undeclared; non-trivial = distinct run outputs; template files that are not valid UTF-8, empty stems, tail-pair names, symlinked templates; histories (the module tree of the incremental OUT_DIR is that of a clean build)',
         assumptions=['file and directory names are UTF-8', 'that the declared functions are callable at every depth is rustc\'s name resolution (e2e)'],
-        level_text='Proved by induction on the tree (no depth bound): tree_mirror_file, subdir_mod_declared, template_fn_declared, decl_only_with_file, broken_isolated, others_silent, valid_template_declared, broken_template_reported, subdir_declared, handleEntries_append; suffix_table over the list extracted from lib.rs on every run. Tie on the whole OUT_DIR + independent oracle on file set, contents, declarations and warnings.',
+        level_text='C10Failed: a call that fails (a template directory that is not there, ignored by the script) disturbs nothing: the run asks for exactly the files, bytes and order of the run without that call, from any prior OUT_DIR state (failed_templates_call_disturbs_nothing / _same_outdir, by a frame lemma step_frame: what a call writes never depends on what was printed or listed before). Proved by induction on the tree (no depth bound): tree_mirror_file, subdir_mod_declared, template_fn_declared, decl_only_with_file, broken_isolated, others_silent, valid_template_declared, broken_template_reported, subdir_declared, handleEntries_append; suffix_table over the list extracted from lib.rs on every run. Tie on the whole OUT_DIR + independent oracle on file set, contents, declarations and warnings.',
         level_note='Trusted: Lean kernel; hand-written model of lib.rs on an abstract file system.',
         design_ref='DESIGN.md §6 C10',
     ),
@@ -337,7 +340,8 @@ PLANS = {
         extra_modules=['RucteProps.C15Tree', 'RucteProps.C01Body', 'RucteProps.C01Blocks'],
         theorems=['Ructe.C15Tree.no_swallow_after_block', 'Ructe.C15Tree.block_complete', 'Ructe.C01.block_accounting', 'Ructe.C01.node_blocks', 'Ructe.C03.render_if_taken', 'Ructe.C03.render_else_if', 'Ructe.C03.else_if_flattening', 'Ructe.C03.render_for', 'Ructe.C03.render_match', 'Ructe.C03.render_seq', 'Ructe.C03.render_fuel_mono'],
         runs=[dict(suite='e2e', n=dict(quick=800, thorough=12000), projection='identity', tags=['C03']),
-              dict(suite='parse', mix='structured,examples', n=dict(quick=1500, thorough=25000), projection='body', tags=['C03'])],
+              dict(suite='parse', mix='structured,examples', n=dict(quick=1500, thorough=25000), projection='body', tags=['C03']),
+              dict(suite='script', mix='history', n=dict(quick=50, thorough=500), projection='script+files', tags=['C03'])],
         correspondence='bytes written by the rustc-compiled generated functions vs Ructe.renderL (specification semantics under the mini-Rust Sem) of the model\'s parse; syntax tree and body code of structured templates vs the model',
         rule='typed template programs: 1..5 templates per program in up to 3 module levels, acyclic calls with 0..3 Content blocks (empty / comment-only / nested directives and calls), if / else-if chains / if-let / for over slices, tuples (& patterns), struct destructuring, ranges, enumerate / match with 2..3 arms, every relational operator, negation, &&, ||; 3 argument sets per program; every rendering re-run under fault sinks (failure at every byte offset for renderings up to 48 bytes, sampled beyond; chunk sizes 1 / 3 / 7 / unlimited; Interrupted every 2nd / 5th call); non-trivial = distinct renderings + distinct accepted syntax trees',
         assumptions=['user fragments are pure and infallible', 'the mini-Rust evaluator (RucteModel/MiniRust.lean) agrees with rustc on the generated fragment language (validated by this run)'],
